@@ -27,7 +27,7 @@ const (
 )
 
 type C04Weights struct {
-	Corrupt, Delete, Scrub, Beat, Check, Health, Detect, Pop, Hopeless int
+	Corrupt, Delete, Scrub, Beat, Check, Health, Detect, Pop, Hopeless, Heartbeat, Lose int
 }
 
 type c04Task struct {
@@ -49,6 +49,7 @@ type C04 struct {
 	D         *Driver
 	W         C04Weights
 	Malformed bool                 // the generator may violate the premise (kill every replica of a tract)
+	Silent    map[int]bool         // lost servers: every replica gone, never heartbeat again (they still answer RPCs: with errors)
 	Killed    map[core.TractID]bool // tracts whose premise was violated on purpose
 	Repulled  map[core.TractID]bool // a same-version re-pull changed a replica of this tract (F21 family)
 
@@ -68,11 +69,12 @@ type C04 struct {
 }
 
 func NewC04(d *Driver) *C04 {
-	c := &C04{D: d, Killed: map[core.TractID]bool{}, Repulled: map[core.TractID]bool{},
+	c := &C04{D: d, Silent: map[int]bool{}, Killed: map[core.TractID]bool{}, Repulled: map[core.TractID]bool{},
 		recs: map[int]*curator.VerifRecovery{}, reported: map[int]map[core.TractID]map[int]int{}, corruptSeq: map[int]map[core.TractID]int{},
 		lastDur: map[core.TractID]curator.VerifTractState{}, prev: map[int]map[core.TractID]c04Rep{}, tasks: map[int]*c04Task{},
-		W: C04Weights{Corrupt: 5, Delete: 4, Scrub: 8, Beat: 8, Check: 5, Health: 2, Detect: 8, Pop: 14, Hopeless: 2}}
+		W: C04Weights{Corrupt: 5, Delete: 4, Scrub: 8, Beat: 8, Check: 5, Health: 2, Detect: 8, Pop: 14, Hopeless: 2, Heartbeat: 6, Lose: 3}}
 	d.Extra = c.extra
+	d.W.Heartbeat = 0 // C04 offers the heartbeats itself: a lost server never sends one again
 	// a tractserver that died inside PullTract (StepCrashPull) reads nothing from further sources: without this
 	// the "dead" callee would go on to the next source and a damaged source would record a failure for a
 	// read that never happened
@@ -201,6 +203,9 @@ func (c *C04) parts() []core.PartitionID {
 
 // Beat = one heartbeat of a tractserver to the current leader incarnation, with its failure report.
 func (c *C04) Beat(ts int) *Event {
+	if c.Silent[ts] {
+		return nil
+	}
 	c.ensure()
 	c.rec()
 	t := c.D.Cl.TS[ts]
@@ -222,6 +227,9 @@ func (c *C04) Beat(ts int) *Event {
 // Check = the curator's CheckTracts request for one (healthy) server: every tract the durable state
 // places there, with its durable version (sync_state.go checkTracts builds exactly these lists).
 func (c *C04) Check(ts int) *Event {
+	if c.Silent[ts] || !c.D.Cl.Cur.C04HasBeaten(core.TractserverID(ts)) || c.rec().Health[core.TractserverID(ts)] != 0 {
+		return nil // the curator sends CheckTracts to healthy servers only
+	}
 	c.ensure()
 	var tracts []core.TractState
 	for _, t := range c.D.durableTracts() {
@@ -601,7 +609,7 @@ func (c *C04) Quiesce() bool {
 		c.ensure()
 		nts := len(d.Cl.TS) - 1
 		for j := 1; j <= nts; j++ {
-			if !d.Cl.Cur.KnowsTS(core.TractserverID(j)) {
+			if !d.Cl.Cur.KnowsTS(core.TractserverID(j)) && !c.Silent[j] {
 				d.Heartbeat(j)
 			}
 		}
@@ -655,6 +663,9 @@ func (c *C04) Heal(maxRounds int) int {
 		g := d.Cl.Cur.Gen
 		c.rec()
 		for ts := 1; ts <= nts; ts++ {
+			if c.Silent[ts] {
+				continue
+			}
 			for _, bt := range d.durableTracts() {
 				tid := d.tractID(bt[0], bt[1])
 				if seq, rep := c.reported[g][tid][ts]; tractserver.C04IsCorrupt(d.Cl.TS[ts], tid) && !(rep && seq == c.corruptSeq[ts][tid]) {
@@ -733,12 +744,7 @@ func (c *C04) extra(d *Driver) []Action {
 				c.Scrub(ts, b, t)
 			}
 		}})
-		acts = append(acts, Action{w.Check, func() {
-			ts := d.R.Range(1, nts)
-			if c.rec().Health[core.TractserverID(ts)] == 0 {
-				c.Check(ts)
-			}
-		}})
+		acts = append(acts, Action{w.Check, func() { c.Check(d.R.Range(1, nts)) }})
 	}
 	if len(dts) > 0 && len(d.tasks) < 3 {
 		// somebody insists on a repair with EVERY host declared bad, while spare servers have room
@@ -758,7 +764,44 @@ func (c *C04) extra(d *Driver) []Action {
 			c.Poll()
 		}})
 	}
-	acts = append(acts, Action{w.Beat, func() { c.Beat(d.R.Range(1, nts)) }})
+	for i := 1; i <= nts; i++ {
+		i := i
+		if !d.Cl.Cur.KnowsTS(core.TractserverID(i)) && !c.Silent[i] {
+			acts = append(acts, Action{w.Heartbeat, func() { d.Heartbeat(i) }})
+		}
+	}
+	// a server is lost for good before it has sent the current leader a heartbeat: every replica on it is gone
+	// and it never heartbeats again.  One per case, only with a spare server to spare, premise kept.
+	if len(c.Silent) == 0 && len(d.Blobs) > 0 && nts >= 2*d.Blobs[0].Repl {
+		var cand []int
+		for i := 1; i <= nts; i++ {
+			if d.Cl.Cur.KnowsTS(core.TractserverID(i)) {
+				continue
+			}
+			ok, hosts := true, false
+			for _, bt := range dts {
+				for _, h := range d.Cl.D.Tract(d.tractID(bt[0], bt[1])).Hosts {
+					if int(h) == i {
+						hosts = true
+						if !c.CanHurt(i, bt[0], bt[1]) {
+							ok = false
+						}
+					}
+				}
+			}
+			if ok && hosts {
+				cand = append(cand, i)
+			}
+		}
+		if len(cand) > 0 {
+			acts = append(acts, Action{w.Lose, func() { c.Lose(cand[d.R.Intn(len(cand))]) }})
+		}
+	}
+	acts = append(acts, Action{w.Beat, func() {
+		if ts := d.R.Range(1, nts); !c.Silent[ts] {
+			c.Beat(ts)
+		}
+	}})
 	acts = append(acts, Action{w.Health, func() {
 		ts := d.R.Range(1, nts)
 		h := 2
@@ -796,5 +839,17 @@ func (c *C04) CheckAllReplicas() {
 	c.D.CheckAllReplicas()
 	for i := 1; i < len(c.D.Cl.TS); i++ {
 		tractserver.C04FailRestore(c.D.Cl.TS[i], saved[i-1])
+	}
+}
+
+// Lose: the server is lost for good: every replica it holds of a durable tract is gone (events 61) and it never
+// heartbeats again.
+func (c *C04) Lose(ts int) {
+	c.Silent[ts] = true
+	for _, bt := range c.D.durableTracts() {
+		tid := c.D.tractID(bt[0], bt[1])
+		if _, ok := c.D.Snap.TS[ts][tid]; ok {
+			c.Delete(ts, bt[0], bt[1])
+		}
 	}
 }
